@@ -39,6 +39,8 @@ def model_params(cs):
         p = dict(p, T=classgen.effective_T(p))    # the configuration may move the limits declared in the class ...
         if 'cfg_export' in p:                      # ... and hide, show or rename the parameter
             p['export'] = p['cfg_export']
+        if 'cfg_constant' in p:                    # ... or turn it into a constant
+            p['constant'] = True
         res[p['name']] = dict(p, wire=classgen.wire_name(p['name'], p.get('export', True)))
         lim = p.get('limits')
         extra = []
